@@ -107,6 +107,9 @@ func conc(in, out, dir string, nc, maxpre, budget, nrand int) {
 		}
 		progs++
 		sc := func(s *sched.S) (func(sched.Step), func(sched.Result)) {
+			// On a loaded machine a granted thread may not be scheduled by the OS for a long time; the default
+			// watchdog (100ms) would then declare it blocked in the runtime and let another thread run concurrently.
+			s.Watchdog = 20 * time.Second
 			// scheduler hooks off while the node is created (memberlist goroutines start here)
 			serf.VerifYield = func(string) {}
 			serf.VerifYieldBlocked = func(string) {}
